@@ -69,7 +69,11 @@ def lineOfSight(eci_position_1: ndarray, eci_position_2: ndarray) -> bool:
     """
     r1_dot_r2 = dot(eci_position_1, eci_position_2)
     r1sq, r2sq = norm(eci_position_1) ** 2, norm(eci_position_2) ** 2
-    tau = (r1sq - r1_dot_r2) / (r1sq + r2sq - 2 * r1_dot_r2)
+    separation_sq = r1sq + r2sq - 2 * r1_dot_r2
+    if separation_sq <= 0.0:
+        # Coincident positions: the segment is a single point
+        return r1sq >= Earth.radius**2
+    tau = (r1sq - r1_dot_r2) / separation_sq
     if tau < 0.0 or tau > 1.0:
         return True
 
